@@ -1,12 +1,14 @@
 import Drivers.Proto
 import St4sd.Model.Ctrl
+import St4sd.Model.CtrlEngine
 /-! Model driver for properties C01 and C02 (C02 entry point) (shared model `St4sd.Ctrl`).
 
 request : {"comps":[{stage,preds,isRepeat,isAgg,isRepl,shutdownOn,restartOn,maxRestarts,script}],
            "order":[..], "lastStage":k, "cont":[stages with continue-on-error],
            "ops":[["sched"]|["exit",c]|["fin",c]|["pm",c]|["kill"]|["tick",c]|["next"]]}
+           optional "launches":[[per component: "task:Reason" | "submitError" | "otherError", one per execution]]
 answer  : {"snaps":[state after every op], "stageDone", "quiescent", "canAdvance", "verdict", "reports",
-           "log", "spec", "own"} -/
+           "log", "spec", "own", "engineReasons":[[what EngS.reported says the engine reports after each execution]]} -/
 open Lean Proto St4sd.Ctrl
 
 def reasonOf : String → Except String Reason
@@ -14,6 +16,17 @@ def reasonOf : String → Except String Reason
   | "SubmissionFailed" => pure .submissionFailed | "UnknownIssue" => pure .unknownIssue
   | "Killed" => pure .killed | "Cancelled" => pure .cancelled | "ResourceExhausted" => pure .resourceExhausted
   | s => throw s!"unknown exit reason {s}"
+
+def reasonName : Reason → String
+  | .success => "Success" | .knownIssue => "KnownIssue" | .systemIssue => "SystemIssue"
+  | .submissionFailed => "SubmissionFailed" | .unknownIssue => "UnknownIssue" | .killed => "Killed"
+  | .cancelled => "Cancelled" | .resourceExhausted => "ResourceExhausted"
+
+def launchOf (s : String) : Except String Launch :=
+  if s == "submitError" then pure .submitError
+  else if s == "otherError" then pure .otherError
+  else if s.startsWith "task:" then do return .task (← reasonOf (s.drop 5).toString)
+  else throw s!"unknown launch {s}"
 
 def fin3Name : Fin3 → String
   | .finished => "finished" | .failed => "failed" | .shutdown => "shutdown"
@@ -74,6 +87,9 @@ def handle (j : Json) : Except String Json := do
   let lastStage ← getNat j "lastStage"
   let ops ← (← getArr j "ops").mapM parseOp
   let cont ← getNatList j "cont"
+  let launches : List (List Launch) ← match j.getObjVal? "launches" with
+    | .ok (Json.arr a) => a.toList.mapM fun x => do (← (← x.getArr?).toList.mapM (·.getStr?)).mapM launchOf
+    | _ => pure []
   let wf : Wf := { n := cds.length, cdef := fun i => cds.getD i {}, order := order, lastStage := lastStage,
                    contOnErr := fun k => cont.contains k }
   let (afin, snapsRev) := ops.foldl (fun (acc : (St × Reports) × List Json) op =>
@@ -94,6 +110,8 @@ def handle (j : Json) : Except String Json := do
                ("reports", jarr (afin.2.map fun e => jarr [jnat e.1, jstr (verdictName e.2)])),
                ("log", jarr (sfin.log.map fun e => jarr [jnat e.1, jarr (e.2.map viewJson)])),
                ("spec", jarr ((comps wf).map fun c => jstr (fin3Name (spec wf c)))),
-               ("own", jarr ((comps wf).map fun c => jstr (fin3Name (own wf c))))]
+               ("own", jarr ((comps wf).map fun c => jstr (fin3Name (own wf c)))),
+               ("engineReasons", jarr (launches.map fun ls =>
+                  jarr ((EngS.reported {} ls).map (jopt (fun r => jstr (reasonName r))))))]
 
 def main : IO Unit := serve handle
